@@ -360,8 +360,14 @@ def load_functions(names, name_space, modules):
         if name not in name_space:
             funcs = ((getattr(module, name, None), module)
                      for module in modules)
+            # (math.e, math.tau, math.inf ... are not functions, and the
+            # helpers a library module imports are not excel functions)
             f, module = next(
-                (f for f in funcs if f[0] is not None), (None, None))
+                (f for f in funcs if callable(f[0]) and (
+                    not f[1].__name__.startswith('pycel.') or getattr(
+                        f[0], '__module__', None) in (
+                            f[1].__name__, 'functools'))),
+                (None, None))
             if f is None:
                 not_found.add(name)
             else:
